@@ -203,4 +203,20 @@ theorem shared_lock_safe (refuse : Caps → Ctr → Pod → Bool) (caps : Caps) 
   have inv := linv_run hR hL sched linit (linv_init refuse caps n req)
   exact ⟨linv_within hR inv, linv_quiescent inv⟩
 
+theorem sameLock_global (n : Nat) (req : Nat → Req) : SameLock .global n req := fun _ _ _ _ => rfl
+
+/-- two callers evicting the same kind of pod through proxies of two DIFFERENT frameworks (profiles 0 and 1) -/
+def twoFrameworks : Nat → Req := fun i => ⟨⟨1, 0⟩, true, i, i⟩
+
+/-- two callers of ONE framework, each with a fresh proxy from `handle.Evictor()` -/
+def twoFreshProxies : Nat → Req := fun i => ⟨⟨1, 0⟩, true, 0, i⟩
+
+/-- the scope codes of the facts extractor: 0 package-level variable, 1 field of the frameworkImpl behind `e.handle`,
+    2 field of the proxy itself -/
+def scopeOfCode : Nat → Option LockScope
+  | 0 => some .global
+  | 1 => some .perFramework
+  | 2 => some .perProxy
+  | _ => none
+
 end KoordVerif.C16
